@@ -12,7 +12,7 @@ package stdlib
 //@ assume-contract context.Background
 //@   pure
 //@   nopanic
-//@   ensures result != nil [ASSUMED]
+//@   ensures result != nil && result == background() [ASSUMED]
 
 //@ assume-contract github.com/pkg/errors.New
 //@   pure
@@ -27,4 +27,115 @@ package stdlib
 //@ assume-contract context.WithValue
 //@   pure
 //@   nopanic
+//@   ensures result != nil && ctxval(result, key) == val [ASSUMED]
+//@   ensures forall k any :: k != key ==> ctxval(result, k) == ctxval(parent, k) [ASSUMED]
+
+//@ assume-contract iface:context.Context.Value
+//@   pure
+//@   nopanic
+//@   ensures result == ctxval(recv, key) [ASSUMED]
+
+//@ spec errcause(e error) error
+//@ spec errunwrap(e error) error
+
+//@ assume-contract github.com/pkg/errors.WithStack
+//@   pure
+//@   nopanic
+//@   ensures err == nil ==> result == nil [ASSUMED]
+//@   ensures err != nil ==> result != nil && errunwrap(result) == err [ASSUMED]
+
+//@ assume-contract github.com/pkg/errors.Cause
+//@   pure
+//@   nopanic
+//@   ensures result == errcause(err) && (err != nil ==> result != nil) [ASSUMED]
+
+//@ assume-contract github.com/pkg/errors.Wrap
+//@   pure
+//@   nopanic
+//@   ensures err == nil ==> result == nil [ASSUMED]
+//@   ensures err != nil ==> result != nil && errunwrap(result) == err [ASSUMED]
+
+//@ spec ctxparent(c context.Context) context.Context
+//@ spec ctxtimeout(c context.Context) int
+
+//@ assume-contract iface:context.Context.Done
+//@   pure
+//@   nopanic
 //@   ensures result != nil [ASSUMED]
+
+//@ assume-contract time.After
+//@   ghost label TA
+//@   pure
+//@   nopanic
+//@   ensures result != nil [ASSUMED]
+
+//@ assume-contract github.com/cenkalti/backoff/v3.NewExponentialBackOff
+//@   pure
+//@   nopanic
+//@   ensures result != nil && fresh(result) [ASSUMED]
+
+//@ assume-contract (*github.com/cenkalti/backoff/v3.ExponentialBackOff).Reset
+//@   nopanic
+//@   pure
+
+//@ assume-contract (*github.com/cenkalti/backoff/v3.ExponentialBackOff).NextBackOff
+//@   ghost label NB
+//@   nopanic
+//@   pure
+
+//@ assume-contract (*github.com/cenkalti/backoff/v3.ExponentialBackOff).GetElapsedTime
+//@   nopanic
+//@   pure
+
+// ---- package time (ASSUMED: pure functions of their arguments; Now() yields a new reading per call) ----
+
+//@ spec nowval(k int) time.Time
+//@ spec timeutc(t time.Time) time.Time
+//@ spec timeadd(t time.Time, d int) time.Time
+//@ spec timesub(t time.Time, u time.Time) int
+//@ spec timefmt(t time.Time, layout string) string
+//@ spec timeiszero(t time.Time) bool
+//@ spec durstr(d int) string
+//@ spec parsedur(s string) int
+//@ spec parseok(s string) bool
+
+//@ assume-contract time.Now
+//@   ghost label NOW
+//@   pure
+//@   nopanic
+//@   ensures result == nowval(ncalls(NOW)) [ASSUMED]
+
+//@ assume-contract (time.Time).UTC
+//@   pure
+//@   nopanic
+//@   ensures result == timeutc(t) [ASSUMED]
+
+//@ assume-contract (time.Time).Add
+//@   pure
+//@   nopanic
+//@   ensures result == timeadd(t, d) [ASSUMED]
+
+//@ assume-contract (time.Time).Sub
+//@   pure
+//@   nopanic
+//@   ensures result == timesub(t, u) [ASSUMED]
+
+//@ assume-contract (time.Time).Format
+//@   pure
+//@   nopanic
+//@   ensures result == timefmt(t, layout) [ASSUMED]
+
+//@ assume-contract (time.Time).IsZero
+//@   pure
+//@   nopanic
+//@   ensures result == timeiszero(t) [ASSUMED]
+
+//@ assume-contract (time.Duration).String
+//@   pure
+//@   nopanic
+//@   ensures result == durstr(d) && parseok(result) && parsedur(result) == d && result != "" [ASSUMED]
+
+//@ assume-contract time.ParseDuration
+//@   pure
+//@   nopanic
+//@   ensures result0 == parsedur(s) && ((result1 == nil) == parseok(s)) [ASSUMED]
